@@ -709,10 +709,13 @@ def gen_fll(seed, idx):
                   "  defuzzifier: " + ["WeightedAverage", "WeightedSum"][(idx // 24 + o) % 2] + rng.choice(["", "", " Automatic", " TakagiSugeno" if kind == "ts" else " Tsukamoto"])]
         s += [f"  default: {rng.choice([lo, (lo + hi) / 2, hi + 1.0]) if dflt else 'nan'}", f"  lock-previous: {'true' if lockp else 'false'}"]
         off = lambda: (lambda c: f"{'+' if c >= 0 else '-'} {abs(c)}")(round(rng.uniform(lo, hi), 3))   # noqa: no unary minus in Function
+        rng_c = random.Random(f"{seed}:{idx}:{o}:constant")       # (own stream: the engines generated before this choice existed stay the same)
         for k in range(rng.choice([2, 3])):
             if kind == "integral":
                 c, p, _, _ = _rand_term(rng, lo, hi)
                 body = f"{c} " + " ".join(fnum(x) for x in p)
+                if rng_c.random() < 0.15:        # a constant membership (a "floor") among the shapes of a Mamdani output
+                    body = f"Constant {rng_c.choice([0.25, 0.5, 1.0])}"
             elif kind == "tsukamoto":
                 c, p, _, _ = _rand_term(rng, lo, hi, ["Ramp", "Ramp", "Sigmoid", "SShape", "ZShape", "Concave"])
                 body = f"{c} " + " ".join(fnum(x) for x in p)
@@ -742,7 +745,15 @@ def gen_fll(seed, idx):
 def _state(e):
     """per output variable: value(s) and [(term name, degree(s))] of the fuzzy output"""
     import numpy as np
-    return [(np.array(ov.value, dtype=float), [(a.term.name, np.array(a.degree, dtype=float)) for a in ov.fuzzy.terms]) for ov in e.output_variables]
+    out = []
+    for ov in e.output_variables:
+        try:
+            fv = ov.fuzzy_value()
+            fv = [str(x) for x in np.atleast_1d(fv)]
+        except Exception as ex:  # noqa
+            fv = [f"{type(ex).__name__}"]
+        out.append((np.array(ov.value, dtype=float), [(a.term.name, np.array(a.degree, dtype=float)) for a in ov.fuzzy.terms], fv))
+    return out
 
 
 def _cmp(a, b):
@@ -797,8 +808,30 @@ def _batch(fl, R, rng, budget, seed=0, engines=None, **kw):
         ranges = [(iv.minimum, iv.maximum) for iv in base.input_variables]
         n = len(ranges)
 
+        # the parameters of each input variable's terms and their reflections 2b - a (poles of the shape formulas), as Python floats in mode A
+        rng_s = random.Random(f"{seed}:{key}:special-rows")
+        if rng_s.random() < 0.5:
+            # an engine written in Python code has plain Python floats as term parameters (the FLL importer stores numpy.float64): same engine, other number type
+            for v_ in list(base.input_variables) + list(base.output_variables):
+                for t in v_.terms:
+                    for k_, x_ in list(vars(t).items()):
+                        if isinstance(x_, np.floating):
+                            setattr(t, k_, float(x_))
+            src = src + "  # term parameters converted to Python floats: [setattr(t, k, float(x)) for v in e.variables for t in v.terms for k, x in list(vars(t).items()) if isinstance(x, np.floating)]"
+        specials = []
+        for iv in base.input_variables:
+            sp = []
+            for t in iv.terms:
+                ps = sorted({float(v) for k_, v in vars(t).items() if isinstance(v, (int, float, np.floating)) and k_ != "height" and math.isfinite(float(v))})
+                sp += ps + [2 * b - a for a in ps for b in ps if a != b]
+            specials.append(sp)
+
         def rnd_row():
             row = [lo + (hi - lo) * rng.choice([rng.random(), rng.randint(0, 4) / 4.0]) for lo, hi in ranges]
+            if rng_s.random() < 0.3:
+                j = rng_s.randrange(n)
+                if specials[j]:
+                    row[j] = rng_s.choice(specials[j])
             u = rng.random()
             if u < 0.2:
                 row = [NAN] * n if rng.random() < 0.6 else [NAN if rng.random() < 0.5 else x for x in row]
@@ -875,7 +908,7 @@ def _cmp_modes(R, base, A, B, N, mode, call, mat):
     for k, ov in enumerate(base.output_variables):
         dz = ov.defuzzifier
         dn = type(dz).__name__
-        val, fz = B[k]
+        val, fz = B[k][0], B[k][1]
         a_vals = [_f(A[i][k][0]) for i in range(N)]
         if not ov.enabled:
             if not all(_same(a, b) for a, b in zip(a_vals, [float(x) for x in np.broadcast_to(val, (N,))] if val.size in (1, N) else [])):
@@ -904,6 +937,13 @@ def _cmp_modes(R, base, A, B, N, mode, call, mat):
                 worst, exp_f, got_f = w, (i, fa), (i, fb)
         if worst:
             R.fail("batch-rounding" if worst == 1 else "batch-fuzzy", f"'{ov.name}' row {exp_f[0]} (mode A): {exp_f[1]}", f"mode {mode}: {got_f[1]}", call)
+        # OutputVariable.fuzzy_value(): one text per row, the text of that row processed alone
+        fva = [A[i][k][2][0] if len(A[i][k][2]) == 1 else str(A[i][k][2]) for i in range(N)]
+        fvb = B[k][2]
+        if len(fvb) == 1 and N > 1:
+            fvb = fvb * N          # degrees that do not depend on the inputs are kept once: one text that holds for every row
+        if not worst and shapes_ok and (len(fvb) != N or any(x != y for x, y in zip(fva, fvb))):
+            R.fail("batch-fuzzy:fuzzy_value", f"'{ov.name}' (mode A) {fva}", f"mode {mode}: {fvb}", call)
 
 
     # Engine.output_values (the documented observation point) once every variable holds N values
